@@ -14,7 +14,7 @@ MODULE = "Model.GroupObs"
 TIED = ["C17_never_idle", "C17_never_idle_flag", "C17_stable_means_heartbeating", "C17_rejoin_timer_real", "C17_retriable_rejoins", "C17_timer_starts_join", "C17_any_timer_starts_join", "C17_join_failure_is_rejoin_after_error",
         "C17_sync_failure_is_rejoin_after_error", "C17_metadata_failure_is_rejoin_after_error", "C17_partition_lookup_failure_is_rejoin_after_error",
         "C17_heartbeat_failure_is_rejoin_after_error",
-        "C17_lookup_failure_retried", "C17_fatal_surfaces", "C17_fatal_surfaces_after_leave"]
+        "C17_lookup_failure_retried", "C17_coordinator_forgotten", "C17_fatal_surfaces", "C17_fatal_surfaces_after_leave"]
 
 
 # ------------------------------------------------------------------ monitors (theorem statements over the implementation's own run)
@@ -46,6 +46,8 @@ def monitor(kind, steps):
                     bad.append((i, "C17_retriable_rejoins: %s failed with %s: rejoin scheduled with delay kind %d, documented %d" % (what, GL.KIND_NAMES[k], o[2], want)))
             if st["timers_before"] == 0 and not scheds:
                 bad.append((i, "C17_retriable_rejoins: %s failed with %s and nothing was scheduled" % (what, GL.KIND_NAMES[k])))
+            if k in (K_CNA, K_NOTCOORD, GL.K_TIMEOUT) and not any(o[0] == GL.O_RESET for o in out):
+                bad.append((i, "C17_coordinator_forgotten: %s failed with %s and the cached coordinator was not reset: the rejoin will go to the same broker" % (what, GL.KIND_NAMES[k])))
 
         def expect_fatal(k, what):
             facts["fatal_checked"] += 1
